@@ -27,7 +27,7 @@ from bind import _pyscope as ps
 
 PROP = "C15"
 
-MAIN_GROUPS = ["core", "core2", "defnames", "targets", "comp", "calls", "decoys"]
+MAIN_GROUPS = ["core", "nest", "core2", "defnames", "targets", "comp", "calls", "decoys"]
 FEATURE_GROUPS = ["params", "stmts", "walrus", "lambda"]
 
 _ROOT = None
@@ -143,9 +143,17 @@ def cause_of(prog, s, n, want):
     for t in path:
         if prog.kind(t) == "comp" and prog.has(t, "walrus", n):
             return "walrus-in-comp"
-    for t in path:
-        if (t, n) in prog.ndecl:
-            return "nonlocal-rebound" if _binders(prog, t, n) else "nonlocal-decl-only"
+    ndecls = [t for t in path if (t, n) in prog.ndecl]
+    if ndecls:
+        # prefer the declaring block that also rebinds the name
+        return "nonlocal-rebound" if any(_binders(prog, t, n) for t in ndecls) else "nonlocal-decl-only"
+    if prog.kind(s) in ("comp", "lambda"):
+        h = prog.parent(s)
+        while prog.kind(h) == "comp":
+            h = prog.parent(h)
+        if prog.kind(h) == "class" and ((h, n) in prog.local or (h, n) in prog.gdecl or (h, n) in prog.ndecl):
+            # the class binds the name or redirects it with global / nonlocal
+            return "%s-in-class-body:class-binds-the-name" % prog.kind(s)
     decls = [t for t in path if (t, n) in prog.gdecl]
     if decls:
         # prefer the declaring block that also binds the name by def / class / import
@@ -157,12 +165,6 @@ def cause_of(prog, s, n, want):
                 return "global-decl:" + "+".join(special)
             best = best or ("global-decl:" + ("+".join(b) or "no-binder"))
         return best
-    if prog.kind(s) in ("comp", "lambda"):
-        h = prog.parent(s)
-        while prog.kind(h) == "comp":
-            h = prog.parent(h)
-        if prog.kind(h) == "class" and (h, n) in prog.local:
-            return "%s-in-class-body:class-binds-the-name" % prog.kind(s)
     where = want if want >= 1 else s
     return "by:" + ("+".join(_binders(prog, where, n)) or "none")
 
@@ -317,8 +319,10 @@ def compare(prog, r, info, obs):
         if want > 1 and prog.kind(want) in ("function", "class") and ln == spans[want][0][0]:
             ok.add(holder(prog.parent(want)))      # the header line also belongs to the enclosing block
         if got not in ok:
-            fail("holding-line", "%s-for-%s" % (prog.kind(got) if got else "?", prog.kind(want)),
-                 "header" if ln == spans[want][0][0] else "last" if ln == spans[want][1][0] else "inside",
+            where = "header" if ln == spans[want][0][0] else "last" if ln == spans[want][1][0] else "inside"
+            if got and prog.kind(got) == "comp" and prog.kind(prog.parent(got)) in ("comp", "lambda"):
+                where = "comp:nested-in-multi-line-expression"     # its get_end() is the logical line's
+            fail("holding-line", "%s-for-%s" % (prog.kind(got) if got else "?", prog.kind(want)), where,
                  "line %d is in scope %d for CPython, rope says %s" % (ln, want, got))
     starts = _line_starts(r)
     import bisect
@@ -411,7 +415,10 @@ def main(tier):
     verdict = common.Verdict(PROP)
     rnd = common.rng("c15")
     groups = MAIN_GROUPS + FEATURE_GROUPS
-    per_group_quick = 2500
+    per_group_cap = 2500 if tier == "quick" else 40000      # thorough: a cap keeps the run inside its budget
+    if os.environ.get("PYSCOPE_CAP"):      # development aid: replay everything / another cap
+        per_group_cap = int(os.environ["PYSCOPE_CAP"])
+    capped = []
     tlc_stats = {}
     items = []
     states = transitions = 0
@@ -436,8 +443,9 @@ def main(tier):
         states += res.distinct
         transitions += res.generated
         progs.sort(key=lambda x: json.dumps(x, sort_keys=True))
-        if tier == "quick" and len(progs) > per_group_quick:
-            progs = rnd.sample(progs, per_group_quick)
+        if len(progs) > per_group_cap and not (tier == "quick" and ps.GROUPS[g].get("replay_all")):
+            capped.append("%s: %d of %d" % (g, per_group_cap, len(progs)))
+            progs = rnd.sample(progs, per_group_cap)
         for k, p in enumerate(progs):
             if k % 997 == 5:
                 p["_sample"] = True
@@ -483,7 +491,8 @@ def main(tier):
         "states": states, "transitions": transitions,
         "traces_validated_against_impl": replayed,
         "samples": samples or [{"note": "no sampled program"}],
-        "exhaustive": exhaustive,
+        "exhaustive": exhaustive and not capped,
+        "sampled_groups": capped,
         "distinct_nontrivial": nontrivial,
         "rule": "one abstract program per reachable TLC state that satisfies WellFormed, per feature group; each "
                 "rendered, cross-checked against CPython (symtable/ast/tokenize/execution) and compared with rope's "
